@@ -359,3 +359,13 @@ _EXTRA13 = {
 }
 for _k, _v in _EXTRA13.items():
     PROPS[_k]['text'] = PROPS[_k]['text'].rstrip() + _v
+
+_EXTRA14 = {
+ 'C02': ' A tap outside a REPEAT_NONE image is transparent in the fast fetchers as in the general ones (C02-R30 = C09-R6).',
+ 'C04': ' Composite routines are dispatched only after the extent analysis (C04-R19, defect F44 - fixed); the bitmap import reads a row only if it has pixels and its partial word only if there is one (C04-R20, C04-R21, defect F56 - fixed).',
+ 'C06': ' Nothing is coalesced after the bulk append (C06-R14); the subtract fence follows its cursor (C06-R15 = C05-R8).',
+ 'C07': ' The bitmap import reads nothing of an image without pixels (C07-R19, defect F56 - fixed) and the partial word only when there is one (C07-R20).',
+ 'C14': ' Setters of bits-image members test the image type (C14-R14, defect F55 - fixed).',
+}
+for _k, _v in _EXTRA14.items():
+    PROPS[_k]['text'] = PROPS[_k]['text'].rstrip() + _v
